@@ -1456,6 +1456,14 @@ _dispatch_queue_adjust_owned(dispatch_queue_class_t dq, uint64_t owned,
 
 	if (unlikely(dq_width > 1)) {
 		if (next_dc && _dispatch_object_is_barrier(next_dc)) {
+			// the reservation is already in dq_state when a previous pass of
+			// this drainer failed in _dispatch_queue_try_upgrade_full_width()
+			// and its unlock was refused (DIRTY): only the drain lock holder
+			// sets or consumes PENDING_BARRIER, so it can't change under us
+			uint64_t dq_state = os_atomic_load2o(dq._dq, dq_state, relaxed);
+			if (unlikely(_dq_state_has_pending_barrier(dq_state))) {
+				return owned;
+			}
 			reservation  = DISPATCH_QUEUE_PENDING_BARRIER;
 			reservation += (dq_width - 1) * DISPATCH_QUEUE_WIDTH_INTERVAL;
 			owned -= reservation;
